@@ -396,6 +396,15 @@ pub fn decode_op(gc: &GenCfg, nt: &NameTable, cs: u32, r: &RawOp, mem: &mut Vec<
                 // move below a path named earlier (a directory, with luck)
                 dst = format!("{}/{}", mem[(r.c as usize * mem.len()) >> 16], nt.name(r.b));
             }
+            if (r.n >> 9) % 100 >= 90 {
+                // below something that was named below the source earlier (created there or MOVED there): a directory
+                // into its own subtree, also when the descendant came from elsewhere
+                let prefix = format!("{}/", src.trim_matches('/'));
+                let below: Vec<&String> = mem.iter().filter(|m| m.starts_with(&prefix)).collect();
+                if !below.is_empty() {
+                    dst = format!("{}/{}", below[(r.c as usize * below.len()) >> 16], nt.name(r.b));
+                }
+            }
             remember(mem, &dst);
             Op::Rename { via, src, dvia, dst }
         }
